@@ -321,6 +321,8 @@ CORPUS_DEPS = [
     {"name": "a3", "version": "~1.2", "markers": 'sys_platform == "win32" or os_name == "nt"', "python": "~3.9"},
     {"name": "a4", "version": "!=1.2", "optional": True, "in_extras": ["a"]}, {"name": "a5", "version": "*", "python": "<=3.9.0,~3.9"},
     {"name": "a6", "version": "~=1.2.3", "platform": "linux || darwin", "extras": ["x"]},
+    {"name": "a9", "version": ">=1.0", "python": ">=3.8", "markers": 'python_version < "3.8"'},   # contradictory: no line (3213fc9)
+    {"name": "a10", "version": ">=1.0", "python": ">=3.8", "platform": "linux"}, {"name": "a11", "version": "*", "optional": True},
     {"name": "a7", "version": ">1", "python": "3.*,>3.10"}, {"name": "a8", "version": "<2", "python": ">=3.6,!=3.8.*", "markers": 'python_version in "3.8 3.9"'},
 ]
 
